@@ -125,6 +125,12 @@ given exactly once (defaults are not known to the translator), the receiver is e
 written; the receiver enters the callee as its fields (a translated callee) or whole (`fields` None: a helper that is a
 parameter of the translation).  `records_import=` makes a record type an abbreviation of the callee's record type.
 
+Text formats.  `sorted(set(s))` / `sorted(list(set(s)))` on a str `s` is translated AS A WHOLE (`set` alone has no
+order): the distinct characters of `s` in increasing code-point order (`Generated.Py.pySortedSet`), a str to loop over.
+A character (loop variable over a str) used as the key of a str-keyed dict is the one-character str.  An `if` whose
+else-branch always leaves (`return` / `raise` on every path) while its body does not: the statements after the `if`
+continue the body.
+
 `isinstance(x, list)` is decided statically: `x : List _` is a Python `list` → True; an int, bool, str, `None`, or a
 record object is not → False.  An `if` (or `if not`) on such a test is translated as its live branch only — the other
 branch is dead for every input of the declared type and need not be typeable.  A union-typed input (`rtf_column_header`:
@@ -422,6 +428,54 @@ TARGETS = [
         imports=["Generated.PyCellAsRtf"], depends=["CellAsRtf"],
         alias={}, outputs={}, returns={}, ret_type="List Str",
     ),
+    dict(
+        name="ParagraphFormatting", file="row.py", cls="TextContent", func="_get_paragraph_formatting", raises=True,
+        doc="TextContent._get_paragraph_formatting: the paragraph control words of one text — `\\hyphpar` /\n"
+            "`\\hyphpar0`, `\\sbN`, `\\saN`, `\\slN\\slmult1` when `space != 1` (N = `int(space * LINE_SPACING_FACTOR)`),\n"
+            "`\\fiN` `\\liN` `\\riN` (N = `Utils._inch_to_twip(indent / TWIPS_PER_INCH)`: true division of an int by the\n"
+            "class constant, an EXACT rational here — the float caveat of DESIGN §6), the justification code\n"
+            "(`ValueError` for an unknown justification).  Parameters for the surroundings: `inch_to_twip`,\n"
+            "`text_justification_codes` / `text_justification_keys` (the dict `TEXT_JUSTIFICATION_CODES` as a lookup and\n"
+            "its keys, read only by the message of the `ValueError`).  The two class constants are read off\n"
+            "`rtflite.core.constants.RTFConstants` when this file is generated and appear as literals.",
+        records={}, classes=[_TEXT_CLASS],
+        fn_params=[("inch_to_twip", "Rat → Int"),
+                   ("text_justification_codes", "List Nat → Option (List Nat)"),
+                   ("text_justification_keys", "List (List Nat)")],
+        params=[("hyphenation", "Bool"), ("space_before", "Int"), ("space_after", "Int"), ("space", "Int"),
+                ("indent_first", "Int"), ("indent_left", "Int"), ("indent_right", "Int"), ("justification", "Str")],
+        skip_params=["self"],
+        env={"self." + f: (f, t) for f, t in _TEXT_FIELDS
+             if f in ("hyphenation", "space_before", "space_after", "space", "indent_first", "indent_left",
+                      "indent_right", "justification")},
+        consts={"RTFConstants.LINE_SPACING_FACTOR": ("rtflite.core.constants", "RTFConstants", "LINE_SPACING_FACTOR"),
+                "RTFConstants.TWIPS_PER_INCH": ("rtflite.core.constants", "RTFConstants", "TWIPS_PER_INCH")},
+        dicts={"TEXT_JUSTIFICATION_CODES": ("text_justification_codes", "Str", "Str")},
+        dict_keys={"TEXT_JUSTIFICATION_CODES": "text_justification_keys"},
+        calls={"Utils._inch_to_twip": ("inch_to_twip", ["Rat"], "Int")},
+        alias={}, outputs={}, returns={}, ret_type="Str",
+    ),
+    dict(
+        name="TextFormatting", file="row.py", cls="TextContent", func="_get_text_formatting", raises=True,
+        doc="TextContent._get_text_formatting: `\\fsN` (N = `RTFMeasurements.point_to_halfpoint(size)`), the OPENING of\n"
+            "the text group `{\\fK` (K = `int(font - 1)`), `\\cfC` when a colour is set (a non-empty str), the three\n"
+            "background words when a background colour is set, and the code of every DISTINCT format character in\n"
+            "increasing code-point order (`sorted(list(set(self.format)))`; `ValueError` for a character without a\n"
+            "code).  Parameters for the surroundings: `point_to_halfpoint`, `get_color_index`\n"
+            "(`Utils._get_color_index`), `format_codes` / `format_keys` (the dict `FORMAT_CODES`).",
+        records={}, classes=[_TEXT_CLASS],
+        fn_params=[("point_to_halfpoint", "Rat → Int"), ("get_color_index", "List Nat → Except Exc Int"),
+                   ("format_codes", "List Nat → Option (List Nat)"), ("format_keys", "List (List Nat)")],
+        params=[("size", "Rat"), ("font", "Int"), ("color", "Option Str"), ("background_color", "Option Str"),
+                ("format", "Option Str")],
+        skip_params=["self"],
+        env={"self." + f: (f, t) for f, t in _TEXT_FIELDS
+             if f in ("size", "font", "color", "background_color", "format")},
+        dicts={"FORMAT_CODES": ("format_codes", "Str", "Str")}, dict_keys={"FORMAT_CODES": "format_keys"},
+        calls={"RTFMeasurements.point_to_halfpoint": ("point_to_halfpoint", ["Rat"], "Int"),
+               "Utils._get_color_index": ("get_color_index", ["Str"], "Int", True)},
+        alias={}, outputs={}, returns={}, ret_type="Str",
+    ),
     _additional_rows("AdditionalRowsFlat", "List (Option Comp)", "a flat list `[header | None, …]`"),
     _additional_rows("AdditionalRowsNested", "List (List (Option Comp))",
                      "a nested list `[[header | None, …], …]` (one Python list per section)"),
@@ -567,7 +621,7 @@ class Fn:
                     ast.unparse(e.comparators[0]) in (self.cfg.get("dicts") or {}):
                 # `k in D` / `k not in D` on a configured dict (a lookup function)
                 lean_fn, kt, _vt = self.cfg["dicts"][ast.unparse(e.comparators[0])]
-                k, tk = self.expr(e.left, defined)
+                k, tk = self.dict_key(*self.expr(e.left, defined))
                 if tk != kt:
                     raise Untranslatable(f"{src}: key of type {tk}")
                 return f"({lean_fn} {k}).{'isSome' if isinstance(e.ops[0], ast.In) else 'isNone'}", "Bool"
@@ -677,6 +731,20 @@ class Fn:
                 if may_raise:        # a helper that may raise: bound like any raising operation
                     return self.tmp(f"{lean_fn} " + " ".join(out), src), rty
                 return f"({lean_fn} " + " ".join(out) + ")", rty
+            if isinstance(f, ast.Name) and f.id == "sorted" and len(e.args) == 1 and not e.keywords:
+                # sorted(set(E)) / sorted(list(set(E))) on a str: the DISTINCT characters in increasing code-point
+                # order (the order of a set, and of `list(set)`, is unspecified, but sorting distinct elements of a
+                # total order has one result; one-character strings compare by code point)
+                inner = e.args[0]
+                if isinstance(inner, ast.Call) and isinstance(inner.func, ast.Name) and inner.func.id == "list" and \
+                        len(inner.args) == 1 and not inner.keywords:
+                    inner = inner.args[0]
+                if isinstance(inner, ast.Call) and isinstance(inner.func, ast.Name) and inner.func.id == "set" and \
+                        len(inner.args) == 1 and not inner.keywords:
+                    a, ta = self.expr(inner.args[0], defined)
+                    if ta == "Str":
+                        return f"(Generated.Py.pySortedSet {a})", "Str"
+                raise Untranslatable(f"{src}: only sorted(set(<str>)) / sorted(list(set(<str>))) is translated")
             if isinstance(f, ast.Name) and f.id == "sorted" and len(e.args) == 1 and len(e.keywords) == 1 and \
                     e.keywords[0].arg == "key" and isinstance(e.keywords[0].value, ast.Lambda) and \
                     len(e.keywords[0].value.args.args) == 1:
@@ -775,7 +843,7 @@ class Fn:
         if isinstance(e, ast.Subscript) and ast.unparse(e.value) in (self.cfg.get("dicts") or {}):
             # D[k] on a configured dict (a function parameter `k → Option v`): KeyError when absent
             lean_fn, kt, vt = self.cfg["dicts"][ast.unparse(e.value)]
-            k, tk = self.expr(e.slice, defined)
+            k, tk = self.dict_key(*self.expr(e.slice, defined))
             if tk != kt:
                 raise Untranslatable(f"{src}: key of type {tk}")
             return self.tmp(f"Generated.Py.pyDictGet {lean_fn} {k}", src), vt
@@ -796,6 +864,11 @@ class Fn:
                 return f"{a}.{e.attr}", fields[e.attr]
             raise Untranslatable(f"attribute {e.attr} of a value of type {ta} in {src}")
         raise Untranslatable(f"expression {src}")
+
+    @staticmethod
+    def dict_key(term: str, ty: str):
+        """a character (an element of a str: a str of length one in Python) used as the key of a dict"""
+        return (f"[{term}]", "Str") if ty == "Char" else (term, ty)
 
     def const_value(self, src: str) -> int:
         """the value of a configured class constant (`consts=`: source path → (module, class, attribute)), read off
@@ -1196,6 +1269,13 @@ class Fn:
                 b, d2, kind = self.narrowed(test, lambda: self.block(orelse + rest, defined, in_loop, ind + "    "),
                                             "else")
                 return pre + test.wrap(a, b, ind, self.DO), d2, kind
+            if orelse and always_leaves(orelse) and not always_leaves(body):
+                # every path through the ELSE branch returns / raises: what follows continues the body
+                a, d2, kind = self.narrowed(test, lambda: self.block(body + rest, defined, in_loop, ind + "    "))
+                b, _, kb = self.narrowed(test, lambda: self.block(orelse, defined, in_loop, ind + "    "), "else")
+                if kb != "return" or (kind != "return" and not in_loop):
+                    raise Untranslatable("a path reaches the end of the function without a return")
+                return pre + test.wrap(a, b, ind, self.DO), d2, kind
             a, da, ka = self.narrowed(test, lambda: self.block(body, defined, in_loop, ind + "    "))
             if ka == "return":       # every path through the body returns / raises: what follows is the else branch
                 b, d2, kind = self.narrowed(test, lambda: self.block(orelse + rest, defined, in_loop, ind + "    "),
@@ -1388,6 +1468,16 @@ EXC_CLASSES = ("IndexError", "KeyError", "ZeroDivisionError", "ValueError", "Typ
                "ColorValidationError")
 # the only subclass relation among them (rtflite's own class; checked against the imported class, `exceptions=`)
 EXC_SUBCLASSES = {"ValueError": ["ColorValidationError"]}
+
+
+def always_leaves(stmts) -> bool:
+    """syntactically: every path through the statements ends in `return` / `raise`"""
+    if not stmts:
+        return False
+    last = stmts[-1]
+    if isinstance(last, (ast.Return, ast.Raise)):
+        return True
+    return isinstance(last, ast.If) and always_leaves(last.body) and always_leaves(last.orelse)
 
 
 def stored_names(stmts) -> set:
@@ -1631,6 +1721,14 @@ def pyDiv (a b : Rat) : Except Exc Rat :=
 
 /-- `int(x)` of a float (an exact rational here): truncation toward zero -/
 def pyInt (x : Rat) : Int := if 0 ≤ x then x.floor else -((-x).floor)
+
+/-- insertion into a strictly increasing list of code points (an element already there is not inserted again) -/
+def insertCp (c : Nat) : List Nat → List Nat
+  | [] => [c]
+  | d :: ds => if c < d then c :: d :: ds else if c = d then d :: ds else d :: insertCp c ds
+
+/-- `sorted(set(s))` / `sorted(list(set(s)))` on a str: its distinct characters in increasing code-point order -/
+def pySortedSet (s : List Nat) : List Nat := s.foldr insertCp []
 
 /-- `xs[i]` on a list: `-len ≤ i < 0` counts from the end, outside `-len ≤ i < len` raises `IndexError` -/
 def pyIndex {α : Type} (xs : List α) (i : Int) : Except Exc α :=
